@@ -147,17 +147,23 @@ static size_t ws_drain(struct ws_sess *s)
 }
 
 /* The backend wait is wrapped (checks.d: "wrap": ["epoll_pwait2", "epoll_wait"]) only to learn how
- * many fds it reported: a pass whose wait reports nothing, runs no harness callback and leaves no
- * active event cannot have changed anything, so the session is quiescent.  (Every syscall costs
- * ~15 us in this sandbox; the earlier "two idle passes + read + FIONREAD" pump was 40 % slower.) */
+ * many fds it reported.  One event_base_loop(EVLOOP_NONBLOCK) call makes several waits (it goes
+ * on as long as callbacks ran); a call in which no wait reported anything, no harness callback ran
+ * and no event is left active cannot have changed anything, so the session is quiescent.  After
+ * every other call the harness end is drained (an AF_UNIX stream socket stops being writable for
+ * the server once more than a quarter of its send buffer is unread) and the loop is called again.
+ * (Every syscall costs ~15 us in this sandbox; the earlier "two idle passes + read + FIONREAD"
+ * pump was 40 % slower.) */
 #include <sys/epoll.h>
-static int ws_last_nready = -1;
+static int ws_last_nready = -1;     /* -1: no wait observed during the current loop call */
+static long ws_wait_events;         /* fds reported by all waits of the current loop call */
 int __real_epoll_pwait2(int epfd, struct epoll_event *ev, int n, const struct timespec *ts, const sigset_t *ss);
 int __wrap_epoll_pwait2(int epfd, struct epoll_event *ev, int n, const struct timespec *ts, const sigset_t *ss);
 int __wrap_epoll_pwait2(int epfd, struct epoll_event *ev, int n, const struct timespec *ts, const sigset_t *ss)
 {
 	int r = __real_epoll_pwait2(epfd, ev, n, ts, ss);
 	ws_last_nready = r;
+	if (r > 0) ws_wait_events += r;
 	return r;
 }
 int __real_epoll_wait(int epfd, struct epoll_event *ev, int n, int timeout);
@@ -166,6 +172,7 @@ int __wrap_epoll_wait(int epfd, struct epoll_event *ev, int n, int timeout)
 {
 	int r = __real_epoll_wait(epfd, ev, n, timeout);
 	ws_last_nready = r;
+	if (r > 0) ws_wait_events += r;
 	return r;
 }
 
@@ -182,11 +189,15 @@ static int ws_pump(struct ws_sess *s)
 	int idle = 0; long iters = 0;
 	while (idle < 2) {
 		long a0 = s->activity;
-		ws_last_nready = -1;
+		ws_last_nready = -1; ws_wait_events = 0;
 		event_base_loop(s->base, EVLOOP_NONBLOCK);
-		if (ws_last_nready == 0 && s->activity == a0 &&
-		    event_base_get_num_events(s->base, EVENT_BASE_COUNT_ACTIVE) == 0)
-			break;                                  /* the wait saw nothing: quiescent */
+		if (ws_last_nready >= 0 && ws_wait_events == 0 && s->activity == a0 &&
+		    event_base_get_num_events(s->base, EVENT_BASE_COUNT_ACTIVE) == 0) {
+			/* the waits saw nothing at all: quiescent, unless a callback that needed no wait
+			 * (deferred / already active) wrote something */
+			if (ws_drain(s) == 0) break;
+			continue;
+		}
 		if (ws_last_nready < 0) {
 			/* the wait was not observed (other backend): fall back to two idle passes */
 			size_t got = ws_drain(s);
